@@ -173,6 +173,49 @@ example : den 8 ssSimple root (.obj [("name", .str "x"), ("child", .obj [("v", n
 example : pyDen 8 C11ex.ss root (.obj [("name", .str "x"), ("tags", .null), ("color", .null)]) = true := by
   decide +kernel
 
+/-! ### members pinned to an enum member (constant references, CUE `unit: #Unit & "M"`) -/
+
+/-- the lookup `__init__` relies on is exact: for a string enum that has a member with the pinned
+    value, `MemberForValue` returns a member with exactly that value (case, spaces and prefixes
+    included) — so the constructor's constant is the pinned value -/
+theorem C11_pinned_member_exact (vals : List EnumVal) (v0 : EnumVal) (rest : List EnumVal) (s : String)
+    (ev : EnumVal) (hv : vals = v0 :: rest) (hk : v0.kind = "string")
+    (hmem : ∃ m ∈ vals, m.value = .str s) (h : memberForValue vals (.str s) = .ok ev) :
+    ev.value = .str s := by
+  subst hv
+  simp only [memberForValue, isNilVal, Bool.false_eq_true, if_false, hk, beq_self_eq_true, if_true] at h
+  cases hf : (v0 :: rest).find? (fun e => valScalarEq e.value (.str s)) with
+  | some e =>
+    rw [hf] at h
+    simp only [Option.getD_some, DRes.ok.injEq] at h
+    subst h
+    have := List.find?_some hf
+    cases hval : e.value <;> simp_all [valScalarEq]
+  | none =>
+    exfalso
+    obtain ⟨m, hm, hmv⟩ := hmem
+    have := List.find?_eq_none.1 hf m hm
+    simp [hmv, valScalarEq] at this
+
+namespace C11ex
+/-- time units: minute "m" and month "M" differ only by case; `EveryMonths.unit` is pinned to the later one -/
+def unitTy : Ty :=
+  .enum [{ name := "Second", value := .str "s", kind := "string" },
+         { name := "Minute", value := .str "m", kind := "string" },
+         { name := "Month", value := .str "M", kind := "string" }] m0
+def everyTy (v : String) : Ty :=
+  .struct [{ name := "unit", ty := .cref "p" "Unit" (.str v) m0, required := true },
+           { name := "count", ty := .scalar "int64" .nil [] m0, required := true }] [] none m0
+def ssUnit : Schemas :=
+  [{ pkg := "p", objects := [obj "Unit" unitTy, obj "Root" (everyTy "M"), obj "EveryMinutes" (everyTy "m")] }]
+end C11ex
+
+/-- a document pinned to the LATER of two case-variant members is in the proved fragment and keeps its value -/
+example : pyDen 8 ssUnit root (.obj [("unit", .str "M"), ("count", n 3)]) = true ∧
+    isOkJson (pyOut ssUnit (.obj [("unit", .str "M"), ("count", n 3)])) (.obj [("unit", .str "M"), ("count", n 3)]) = true ∧
+    pyDen 8 ssUnit root (.obj [("unit", .str "m"), ("count", n 3)]) = false := by
+  refine ⟨?_, ?_, ?_⟩ <;> decide +kernel
+
 /-! ### the full statement fails on the current tree -/
 
 def docNullChild : Json := .obj [("name", .str "x"), ("child", .null)]
